@@ -127,6 +127,7 @@ type Explorer struct {
 	maxWall    time.Duration
 	started    time.Time
 	sampleSeed int64
+	rng        uint64
 	pathSeq    int64
 
 	mu      sync.Mutex
@@ -193,6 +194,14 @@ func (ex *Explorer) worker(id int) {
 			ex.cond.Broadcast()
 			ex.mu.Unlock()
 			break
+		}
+		// depth first, but every 16th pop takes a random pending prefix: when a
+		// harness cannot be finished inside its wall limit the explored part is
+		// then spread over the whole choice space instead of one corner of it
+		ex.rng = ex.rng*6364136223846793005 + 1442695040888963407
+		if n := len(ex.stack); n > 1 && (ex.rng>>33)%16 == 0 {
+			k := int((ex.rng >> 37) % uint64(n))
+			ex.stack[k], ex.stack[n-1] = ex.stack[n-1], ex.stack[k]
 		}
 		prefix := ex.stack[len(ex.stack)-1]
 		ex.stack = ex.stack[:len(ex.stack)-1]
